@@ -1,0 +1,24 @@
+//go:build verif
+
+// Verification hooks (compiled only with -tags verif): entry points for a model-based test harness
+// that drives the real cmdAdd / cmdDel against an in-memory datastore.
+package ipamplugin
+
+import (
+	"github.com/containernetworking/cni/pkg/skel"
+
+	"github.com/projectcalico/calico/cni-plugin/internal/pkg/utils"
+	"github.com/projectcalico/calico/cni-plugin/pkg/types"
+	client "github.com/projectcalico/calico/libcalico-go/lib/clientv3"
+)
+
+// VerifSetClientFactory installs (or, with nil, removes) the client factory used by utils.CreateClient.
+func VerifSetClientFactory(f func(conf types.NetConf) (client.Interface, error)) {
+	utils.VerifClientFactory = f
+}
+
+// VerifCmdAdd runs the real CNI IPAM ADD.
+func VerifCmdAdd(args *skel.CmdArgs) error { return cmdAdd(args) }
+
+// VerifCmdDel runs the real CNI IPAM DEL.
+func VerifCmdDel(args *skel.CmdArgs) error { return cmdDel(args) }
